@@ -183,6 +183,7 @@ class LoggedProblem(Problem):
         self.calls = 0         # attempted evaluations (including a failing one)
         self.fail_at = None    # 1-based index of the call that raises
         self.fail_exc = ObjectiveFailure
+        self.fail_from = False  # True: every evaluation from fail_at on fails (the failure is not transient)
         self.fail_args = None  # None: one message argument; otherwise the argument tuple (may be empty)
         self.max_calls = None  # runaway guard: beyond it a flag is set and every call raises
         self.runaway = False
@@ -198,7 +199,7 @@ class LoggedProblem(Problem):
         if self.max_calls is not None and self.calls > self.max_calls:
             self.runaway = True
             raise ObjectiveFailure("evaluation budget guard")
-        if self.fail_at is not None and self.calls == self.fail_at:
+        if self.fail_at is not None and (self.calls == self.fail_at or (self.fail_from and self.calls > self.fail_at)):
             if self.fail_args is not None:
                 raise self.fail_exc(*self.fail_args)
             raise self.fail_exc("injected failure at evaluation %d" % self.calls)
